@@ -16,7 +16,8 @@ def run(tier: str, seed: int) -> Report:
         "reference transform (complete records by construction). Per case, on a Pandas frame and on a Polars frame: blocks->rows->blocks and "
         "rows->blocks->rows with inverse(); a general block-to-block map into two other strict layouts of the same content keys (long / transposed) and back "
         "with inverse(); compose() and >> of (blocks->rows, rows->layout), >> of (blocks->layout, layout->rows) and of (rows->blocks, blocks->layout) against "
-        "sequential application; finally Pandas vs Polars for every transform. Tables are compared as column set + multiset of rows. NONTRIVIAL iff at "
+        "sequential application; the blocks->rows round trips (plain and through the long layout) again for the block table with its ROWS PERMUTED (all "
+        "permutations for <= 4 rows; otherwise reversed, rotated, control-key major, control-key major with alternating record direction, two shuffles); finally Pandas vs Polars for every transform. Tables are compared as column set + multiset of rows. NONTRIVIAL iff at "
         "least one contract check was evaluated."
         % (len(c17.gen_specs()), "every 4th-part sample of them at quick" if tier == "quick" else "every second one at thorough", "" if tier == "quick" else ", all equal, all null, a second permutation")
     )
